@@ -309,7 +309,7 @@ BUDGET = {"quick": dict(n_random=30, n_big=6, gens=["gen:8:3:1:0", "gen:10:2:2:2
 
 def run(tier, seed):
     import runner
-    b = BUDGET[tier]
+    b, tier = runner.budget(BUDGET, tier)
     kinds = ["random"] * b["n_random"] + ["randombig"] * b["n_big"] + b["gens"] + b["bench"]
     tasks = [(seed, i, k, tier) for i, k in enumerate(kinds)]
     rs = runner.pmap(run_scenario, tasks)
